@@ -103,6 +103,42 @@ class PureAbstraction:
         return '%s(%s)' % (self.uf(i), ', '.join(arg_leaf_exprs))
 
 
+_HDR = {}
+
+
+def default_includes(low, f):
+    """Headers for a native replay of f: the header that defines f and the headers of every class that
+    occurs in its signature (None = all headers, if something cannot be located)."""
+    from . import tu
+    if not _HDR:
+        for c, h in tu.class_templates():
+            _HDR[c] = h
+    hs = []
+    if f.loc and f.loc[0] and f.loc[0].startswith(astload.INC):
+        hs.append(os.path.relpath(f.loc[0], astload.INC))
+
+    def visit(t):
+        if t[0] in ('ptr', 'ref', 'opt', 'sarr'):
+            visit(t[1])
+        elif t[0] == 'rec':
+            r = low.records.get(t[1])
+            if r is not None and r.template in _HDR:
+                if _HDR[r.template] not in hs:
+                    hs.append(_HDR[r.template])
+            elif r is not None and r.template is None:
+                pass
+            else:
+                hs.append(None)
+    for _, pt in f.params:
+        visit(pt)
+    visit(f.ret)
+    if f.record:
+        visit(('rec', f.record))
+    if None in hs or not hs:
+        return None
+    return hs
+
+
 class IeeeJob:
     def __init__(self, check, name, low, f, ensures, requires=(), assigns=None, replace=(), replace_contracts=None,
                  backend='cvc5', timeout=120, predicate=None, includes=None, extra_roots=(), flags=(), text_extra='', replay_extra=()):
@@ -113,8 +149,8 @@ class IeeeJob:
         self.replace_contracts = replace_contracts or {}
         self.backend, self.timeout = backend, timeout
         self.predicate = predicate
-        if includes is None and f.loc and f.loc[0] and f.loc[0].startswith(astload.INC):
-            includes = [os.path.relpath(f.loc[0], astload.INC)]
+        if includes is None:
+            includes = default_includes(low, f)
         self.includes = includes
         self.extra_roots = list(extra_roots)
         self.flags = list(flags)
